@@ -15,11 +15,12 @@ STUBS = ["input commit = attribute record with the fields the mapping reads; exp
          "parent lookup functions raise KeyError (parents are mapped through revision_id_foreign_to_bzr)"]
 ASSUMPTIONS = ["commit / author times are non-negative integers < 10^6, time zones within +-99999 seconds",
                "message bytes are ASCII (the engine's UTF-8 model); author/committer/encoding are concrete values from a "
-               "small set; no gpg signature, merge tags or extra headers (they pass through dulwich serialisation)",
+               "small set; gpg signature and merge tags are arbitrary byte strings (merge tags are carried by a stand-in for "
+               "dulwich's Tag that only keeps the raw bytes); no extra headers",
                "metadata block: revision ids and parent ids contain no whitespace, property names contain no ':' / "
                "whitespace and are not empty-valued collisions, messages do not contain the '--BZR--' separator"]
-OUTSIDE = ["byte-for-byte identity of the serialised commit (dulwich as_raw_string)", "signatures, merge tags, extra "
-           "headers, non-UTF-8 text encodings", "values outside the stated ranges"]
+OUTSIDE = ["byte-for-byte identity of the serialised commit (dulwich as_raw_string) and the parsing of merge tags", "extra "
+           "headers, text encodings other than utf-8 / iso8859-1, symbolic non-ASCII messages", "values outside the stated ranges"]
 
 
 class _Commit:
